@@ -143,7 +143,7 @@ def columns(tier):
             for n in range(1, nmax + 1):
                 for col in itertools.product(dom, repeat=n):
                     out.append([kind, w, list(col)])
-    sdom = [None, b'A', b'B', b' ']
+    sdom = [None, b'A', b'B', b' ', b'\0']       # NUL is a character of the alphabet (CCITT IA5) like any other
     for nb in (1, 2):
         dom = [None if x is None else x * nb for x in sdom] + ([b'AB', b'A', b''] if nb == 2 else [])     # incl. shorter than the field
         for n in range(1, nmax + 1):
